@@ -323,6 +323,10 @@ def gen_args(rng, argnames, info, objname, pools):
             out.extend([s, e, rng.random() < 0.5])
         elif a == "smallint":
             out.append(rng.choice([0, 0, 1, 2, 3, 5]))
+        elif a == "faultpos":
+            # where the disk fills up, in fifths of the file: the tail (FASTA section / last record) is where writers
+            # tend to do something special, so it is drawn more often
+            out.append(rng.choice([0, 1, 2, 3, 4, 4, 5, 5, 5]))
         elif a == "shift":
             out.append(rng.choice([-3, -1, 0, 1, 2, 7]))
         elif a == "win":
@@ -1065,6 +1069,21 @@ def gen_plan(rng, check="C10", size=1, max_steps=60, known_avoid=()):
                             steps.append(st3)
             if steps:
                 sessions.append(steps)
+    # collections on a sequence chunk (their sequence has an identifier of its own) are exported into a disk that fills up in
+    # the last fifth of the file - the FASTA section when sequences are asked for - and interrogated afterwards: a failed
+    # export must leave its operand as it was
+    for n in list(pb.objects):
+        o_ = pb.objects[n]
+        if o_.get("kind") == "collection" and "spec" in o_ and (o_["spec"].get("parent") or {}).get("mode") == "chunk" and rng.random() < 0.4:
+            sid = len(sessions)
+            steps = [{"s": sid, "t": "call", "obj": n, "op": "collection_to_gff3(disk full at write k)", "args": [True, False, rng.choice([4, 5, 5])]}]
+            if rng.random() < 0.5:
+                steps.append({"s": sid, "t": "call", "obj": n, "op": "collection_to_genbank(disk full at write k)", "args": [rng.random() < 0.5, True, rng.choice([3, 5])]})
+            for x in rng.sample(["sequence", "__eq__", "hash==twin", "get_reference_sequence", "to_dict(crc,parent)", "collection_to_gff3"], 3):
+                st = pb.call_step(sid, n, BY_NAME["collection"][x], store_p=0.0)
+                if st:
+                    steps.append(st)
+            sessions.append(steps)
     # order twins are asked the order-sensitive questions one after the other (either one first)
     for pair in pb.order_twins:
         pair = list(pair)
